@@ -354,7 +354,7 @@ def parse_compile_errors(log_text):
     for line in log_text.split('\n'):
         m = _ERR_BLOCK_RE.match(line)
         if m:
-            if m.group(2).startswith(('could not compile', 'aborting due to')):
+            if m.group(2).startswith(('could not compile', 'aborting due to', 'Failed to execute cargo')):
                 cur = None
                 continue
             cur = {'code': m.group(1), 'message': m.group(2), 'file': None, 'line': None, 'text': [line]}
